@@ -833,11 +833,39 @@ func runC11(c *Ctx) {
 			}
 		}
 		r.Add("R6", "call:"+c.FuncKey(fn), c.InstrPos(cs), c.FuncKey(fn), "splitter is given the text and Config.SplitLen", okLen && okTxt, fmt.Sprintf("text ok=%v, length is Config.SplitLen=%v", okTxt, okLen))
-		// one Raw per piece: a Raw call in the loop ranging over the result, once per element
-		var rawCalls []ssa.CallInstruction
-		for _, x := range CallSites(fn) {
-			if x.Common().StaticCallee() == a.Raw {
-				rawCalls = append(rawCalls, x)
+		// one Raw per piece: a Raw call in the loop ranging over the result, once per element - in this function, or
+		// in the unexported helper the pieces are handed to ("send each of these")
+		frame := fn
+		var pieces ssa.Value
+		if v, isV := cs.(ssa.Value); isV {
+			pieces = v
+		}
+		collect := func(f *ssa.Function) []ssa.CallInstruction {
+			var out []ssa.CallInstruction
+			for _, x := range CallSites(f) {
+				if x.Common().StaticCallee() == a.Raw {
+					out = append(out, x)
+				}
+			}
+			return out
+		}
+		rawCalls := collect(fn)
+		if len(rawCalls) == 0 && pieces != nil {
+			for _, ref := range *pieces.Referrers() {
+				hc, isC := ref.(*ssa.Call)
+				if !isC || hc.Call.IsInvoke() {
+					continue
+				}
+				h := hc.Call.StaticCallee()
+				if h == nil || !c.InModuleFn(h) || h.Package() != c.Client || (h.Object() != nil && h.Object().Exported()) || addrTaken(h) {
+					continue
+				}
+				for i, arg := range hc.Call.Args {
+					if arg == pieces && i < len(h.Params) {
+						frame, pieces = h, h.Params[i]
+						rawCalls = collect(h)
+					}
+				}
 			}
 		}
 		okRaw := len(rawCalls) == 1 && c.LoopDepth(rawCalls[0].Block()) == 1
@@ -846,9 +874,9 @@ func runC11(c *Ctx) {
 			// the sent string contains the range element
 			uses := false
 			var elemLoad ssa.Value
-			funcInstrs(fn, func(in ssa.Instruction) {
+			funcInstrs(frame, func(in ssa.Instruction) {
 				if u, ok := in.(*ssa.UnOp); ok && u.Op == token.MUL {
-					if ia, ok := u.X.(*ssa.IndexAddr); ok && ia.X == ssa.Value(cs.(*ssa.Call)) {
+					if ia, ok := u.X.(*ssa.IndexAddr); ok && ia.X == pieces {
 						elemLoad = u
 					}
 				}
